@@ -56,10 +56,23 @@ func checkNonceLayout(p *Program, r *Result) {
 		detail = "incNonce must contain exactly one store"
 	}
 	var phi *ssa.Phi
+	prefix := int64(-1) // k when the store goes through nonce[:k]
 	if ok {
 		s := stores[0]
 		ia, isIA := s.Addr.(*ssa.IndexAddr)
-		if !isIA || ia.X != inc.Params[0] {
+		// the counter bytes may be addressed through a prefix nonce[:k] of the parameter
+		if isIA {
+			if sl, isSl := ia.X.(*ssa.Slice); isSl && sl.X == ssa.Value(inc.Params[0]) && sl.Max == nil {
+				lo := int64(0)
+				if sl.Low != nil {
+					lo, _ = evalIntConst(sl.Low, n)
+				}
+				if hi, okHi := evalIntConst(sl.High, n); sl.High != nil && okHi && lo == 0 && hi <= n {
+					prefix = hi
+				}
+			}
+		}
+		if !isIA || (ia.X != inc.Params[0] && prefix < 0) {
 			ok, detail = false, "store does not target an element of the nonce parameter"
 		} else {
 			phi, _ = ia.Index.(*ssa.Phi)
@@ -91,7 +104,7 @@ func checkNonceLayout(p *Program, r *Result) {
 		// counter: init len-2, step -1, bound >= 0
 		init, step := false, false
 		for _, e := range phi.Edges {
-			if c, isC := constInt(e); isC && c == n-2 {
+			if c, isC := evalIntConst(e, n); isC && c == n-2 && (prefix < 0 || prefix == n-1) {
 				init = true
 			} else if b, isB := e.(*ssa.BinOp); isB && b.Op == token.SUB && b.X == ssa.Value(phi) {
 				if one, isOne := constInt(b.Y); isOne && one == 1 {
@@ -239,4 +252,55 @@ func stripSliceToField(v ssa.Value) (*ssa.FieldAddr, bool) {
 			return nil, false
 		}
 	}
+}
+
+// evalIntConst folds an integer expression over constants and the lengths of the nonce array
+// (n) and of its constant-bounded slices.
+func evalIntConst(v ssa.Value, n int64) (int64, bool) {
+	if k, ok := constInt(v); ok {
+		return k, true
+	}
+	switch x := v.(type) {
+	case *ssa.BinOp:
+		a, ok1 := evalIntConst(x.X, n)
+		b, ok2 := evalIntConst(x.Y, n)
+		if ok1 && ok2 {
+			switch x.Op {
+			case token.ADD:
+				return a + b, true
+			case token.SUB:
+				return a - b, true
+			}
+		}
+	case *ssa.Call:
+		if isBuiltin(&x.Call, "len") && len(x.Call.Args) == 1 {
+			switch y := x.Call.Args[0].(type) {
+			case *ssa.Slice:
+				lo, hi := int64(0), int64(-1)
+				okB := true
+				if y.Low != nil {
+					lo, okB = evalIntConst(y.Low, n)
+				}
+				if y.High != nil && okB {
+					hi, okB = evalIntConst(y.High, n)
+				} else if okB {
+					if pt, isP := y.X.Type().Underlying().(*types.Pointer); isP {
+						if at, isA := pt.Elem().Underlying().(*types.Array); isA {
+							hi = at.Len()
+						}
+					}
+				}
+				if okB && hi >= lo {
+					return hi - lo, true
+				}
+			default:
+				if pt, isP := y.Type().Underlying().(*types.Pointer); isP {
+					if at, isA := pt.Elem().Underlying().(*types.Array); isA {
+						return at.Len(), true
+					}
+				}
+			}
+		}
+	}
+	return 0, false
 }
